@@ -307,6 +307,13 @@ def gen(rng, tier):
     tl = tri if not quick else tri[:9]
     for a in tl:
         yield {"lines": ["eq3 %s %s %s" % (a, b, c) for b in tl for c in tl]}
+    # --- deep chains (equality and deep copy recurse over the whole tree, however deep it is)
+    def chain(d, leaf):
+        return "".join("[" if i % 2 == 0 else "{61:" for i in range(d)) + leaf + "".join("]" if i % 2 == 0 else "}" for i in reversed(range(d)))
+    for d in ((1030, 2200) if quick else (1023, 1024, 1025, 3000, 5000)):
+        a, b = chain(d, "i1"), chain(d, "u1")
+        c = chain(d, "i2")
+        yield {"lines": ["eq %s %s - -" % (a, b), "eq %s %s - -" % (a, c), "copy %s -" % a, "eqself %s -" % a], "noshrink": True}
     # --- random pairs / triples / copies / mutation probes
     n = 6000 if quick else 50000
     for _ in range(n):
